@@ -1547,6 +1547,63 @@ fn long_queue_fault_run(rng: &mut Rng, out: &mut Out, rec: &Arc<Recorder>, dir: 
     let _ = std::fs::remove_file(&path);
 }
 
+/// write-behind after an outage: the device is overfull for a few seconds (every background flush
+/// fails with OutOfSpace), then deletes make room and a few more writes are accepted - no flush
+/// call anywhere.  Once there is room, what is buffered must reach the device about as fast as it
+/// does on a store that never saw a failure (measured first, on the same store).
+fn outage_run(rng: &mut Rng, out: &mut Out, rec: &Arc<Recorder>, dir: &str, idx: u64) {
+    let blocks = 48u64;
+    let path = format!("{}/outage{}.feox", dir, idx);
+    let _ = std::fs::remove_file(&path);
+    rec.log.lock().unwrap().clear();
+    *rec.plan.lock().unwrap() = FaultPlan::default();
+    rec.fd.store(-2, Ordering::SeqCst);
+    rec.enabled.store(true, Ordering::SeqCst);
+    let finish = |rec: &Arc<Recorder>| { rec.enabled.store(false, Ordering::SeqCst); rec.fd.store(-1, Ordering::SeqCst); };
+    let Ok(store) = open_store(&path, blocks, false) else { finish(rec); return };
+    // durable = present with this digest in the image rebuilt from the fsynced part of the trace
+    let durable = |want: &BTreeMap<Vec<u8>, Option<u64>>| -> bool {
+        let trace: Vec<Ev> = rec.log.lock().unwrap().clone();
+        let (img, _) = build_image(&trace, trace.len(), blocks, &|_, _| Fate::Lost);
+        let p = write_image(dir, &format!("outage{}_probe.feox", idx), &img);
+        let r = recover(&p, blocks);
+        let _ = std::fs::remove_file(&p);
+        match r { Ok(rv) => want.iter().all(|(k, w)| rv.contents.get(k).map(|x| x.0) == *w), Err(_) => false }
+    };
+    let wait_durable = |want: &BTreeMap<Vec<u8>, Option<u64>>, limit_ms: u64| -> Option<u64> {
+        let t0 = std::time::Instant::now();
+        while (t0.elapsed().as_millis() as u64) < limit_ms {
+            if durable(want) { return Some(t0.elapsed().as_millis() as u64); }
+            std::thread::sleep(std::time::Duration::from_millis(25));
+        }
+        None
+    };
+    // 1. the normal latency of this store on this machine
+    let mut want: BTreeMap<Vec<u8>, Option<u64>> = BTreeMap::new();
+    for i in 0..4 { let k = format!("pre{}-{}", idx, i).into_bytes(); let v = rng.bytes(100); if store.insert(&k, &v).is_ok() { want.insert(k, Some(fnv(&v))); } }
+    let Some(normal) = wait_durable(&want, 20_000) else { out.fail("C19", "outage case: the first writes were not durable after 20 s without flush".into(), "-"); drop(store); finish(rec); return };
+    // 2. overfill: more one-block records than the device has blocks; the flusher keeps failing
+    let mut big: Vec<Vec<u8>> = vec![];
+    for i in 0..64 { let k = format!("big{}-{:02}", idx, i).into_bytes(); if store.insert(&k, &rng.bytes(3000)).is_ok() { big.push(k); } }
+    let outage_ms = rng.range(5000, 7000);
+    std::thread::sleep(std::time::Duration::from_millis(outage_ms));
+    // 3. room returns, a few more writes are accepted; no flush call
+    for k in &big { if store.delete(k).is_ok() { want.insert(k.clone(), None); } }
+    for i in 0..6 { let k = format!("post{}-{}", idx, i).into_bytes(); let v = rng.bytes(120); if store.insert(&k, &v).is_ok() { want.insert(k, Some(fnv(&v))); } }
+    let bound = (normal * 12).max(3000);
+    let got = wait_durable(&want, 25_000);
+    out.count("outage case");
+    out.max_latency_ms = out.max_latency_ms.max(got.unwrap_or(25_000));
+    match got {
+        Some(ms) if ms <= bound => {}
+        Some(ms) => out.fail("C19", format!("outage case: after {} ms of failing background flushes (device overfull), deletes made room; what was buffered then needed {} ms to reach the device without flush - the same store needed {} ms before the outage (bound {} ms)", outage_ms, ms, normal, bound), "-"),
+        None => out.fail("C19", format!("outage case: after {} ms of failing background flushes, deletes made room, but what was buffered was not durable 25 s later (no flush call)", outage_ms), "-"),
+    }
+    drop(store);
+    finish(rec);
+    let _ = std::fs::remove_file(&path);
+}
+
 fn writebehind_run(rng: &mut Rng, out: &mut Out, rec: &Arc<Recorder>, dir: &str, idx: u64) {
     let blocks = 256u64;
     let path = format!("{}/wb{}.feox", dir, idx);
@@ -1777,6 +1834,7 @@ fn main() {
     if has("writebehind") {
         for i in 0..get("wb", 2) {
             writebehind_run(&mut rng, &mut out, &rec, &args.out.clone(), i);
+            if i == 0 && get("outage", 1) == 1 { outage_run(&mut rng, &mut out, &rec, &args.out.clone(), i); }
         }
     }
     out.ops.flush().unwrap();
